@@ -5,10 +5,6 @@ Open Scope N_scope.
 
 Inductive titem := TRec (t : Z) (b : bytes) | TTrig (t : Z).
 
-(* the number of the day / hour / minute / second a local instant lies in *)
-Definition period_of (a : age) (t : Z) : Z :=
-  match a with ADay => t / 86400 | AHour => t / 3600 | AMinute => t / 60 | ASecond => t end%Z.
-
 Definition rotate_due (a : option age) (lim : option N) (off : Z) (start : Z) (content : bytes) (t : Z) : bool :=
   match a with Some a' => negb (period_of a' (start + off) =? period_of a' (t + off))%Z | None => false end
   || match lim with Some m => m <? N.of_nat (length content) | None => false end.
